@@ -4,6 +4,7 @@ import (
 	"errors"
 	"fmt"
 	"os"
+	"sort"
 	"sync"
 	"sync/atomic"
 	"time"
@@ -300,6 +301,36 @@ func runC18(c *core.Ctx, idx int) {
 				time.Sleep(50 * time.Microsecond)
 			}
 		}(p)
+	}
+	// the list of public symbols: every caller gets a list of its own (it may sort, filter or overwrite it)
+	{
+		cells := s.sc.St("cells")
+		want := append([]string{}, cells.Store.GetPublicSymbols()...)
+		sort.Strings(want)
+		for p := 0; p < 3; p++ {
+			rwg.Add(1)
+			go func(p int) {
+				defer rwg.Done()
+				for i := 0; !stop.Load(); i++ {
+					got := cells.Store.GetPublicSymbols()
+					sorted := append([]string{}, got...)
+					sort.Strings(sorted)
+					c.Count("helper_calls", 1)
+					c.Count("public_symbol_lists", 1)
+					if fmt.Sprint(sorted) != fmt.Sprint(want) {
+						c.Violationf("C18 GetPublicSymbols returned a list another caller has changed", map[string]any{"expected": want}, "got %q", got)
+						return
+					}
+					// the caller's own business with its list
+					for j := range got {
+						got[j] = fmt.Sprintf("overwritten-by-%d", p)
+					}
+					if i%32 == 31 {
+						time.Sleep(100 * time.Microsecond)
+					}
+				}
+			}(p)
+		}
 	}
 	// the literal converters the parser's listeners call for every literal: each goroutine converts literals of its own
 	// and gets the value of the literal it passed, whatever the others are converting at that moment
